@@ -255,7 +255,8 @@ fn items(out: &mut Out, modpath: &str, its: &[Item]) {
                     format!("{}{}", if neg.is_some() { "!" } else { "" }, ts(p))
                 });
                 out.items.push(json!({"k":"Impl","mod":modpath,"self_ty":self_ty,"trait":tr,
-                    "unsafe":im.unsafety.is_some(),"generics":ts(&im.generics),"attrs":attrs(&im.attrs)}));
+                    "unsafe":im.unsafety.is_some(),"generics":ts(&im.generics),
+                    "where": im.generics.where_clause.as_ref().map(|w| ts(w)),"attrs":attrs(&im.attrs)}));
                 for ii in &im.items {
                     match ii {
                         ImplItem::Fn(f) => out.items.push(json!({
